@@ -1,5 +1,6 @@
 import PGM.Driver.C14
 import PGM.Driver.C15
+import PGM.Driver.C07
 /-!
 Line-protocol driver: one JSON request per input line, one JSON response per output line.
 Run with `lake env lean --run Main.lean` or as the compiled `pgmdriver`.
@@ -12,6 +13,7 @@ def dispatch (req : Json) : Except String Json := do
   | "factor" => handleC14 req
   | "dataset" => handleDataset req
   | "domain" => handleDomain req
+  | "cdp" => handleCdp req
   | _ => throw s!"unknown op {op}"
 
 def respond (line : String) : String :=
